@@ -24,8 +24,44 @@ Also seen (not a C22/C16 violation, modelled as coded): a continuation command (
 SubscribeReply from the stored options and loses ClientSideRefresh, so a paginated map subscription answers a client
 sub refresh with disconnect 3501.
 
-Mutation testing (FRAMEWORK rule 3; scratch worktrees /tmp/mapsub-m*, `VERIF_REPO=... ./check C22|C16M`), see MUTATIONS
-at the end of this file.
+A third finding needs a PUB/SUB lag of two deliveries, which the memory broker cannot produce (lag2_coded.cfg violates
+C22, lag2_fixed.cfg is clean; reproduced on the real code with sim_lag2_fixed.cfg): a buffered publication at or before
+the position of the live transition is returned in the live reply and put on top of the newer state.  Repair: drop
+buffered publications with Offset <= sincePosition.Offset before the merge (13 lines, final report).  When the probe
+finds both repairs in the tree ('fixed2'), the thorough tier of C22 also checks and replays the lag-2 configurations.
+
+Mutation testing (FRAMEWORK rule 3; scratch worktrees /tmp/mapsub-m*, `VERIF_REPO=/tmp/mapsub-mN ./check C22|C16M
+--seed 1`, quick tier, with the known-finding entries above in place).  Caught = exit 1 with a VIOLATION whose signature is
+not a known finding:
+  m1  handleMapStatePhase: last page goes live from the current page's position instead of the frozen first-page offset
+      -> C22 exit 1 (unexplained:<mode>:<kind>: update of a later-page key between two pages lost)
+  m2  handleMapStreamPhase: stream page read Since.Offset+1 (off by one)                       -> C22 exit 1
+  m5  Node.MapStreamRead: trim detection off by one (first entry may be since+2)                -> C22 exit 1
+      (recovered-with-missing-change:rlive / :rstream: recovered=true after trimming past the saved position)
+  m8  handleMapStreamPhase: Removed flag dropped on stream pages (removal delivered as update)  -> C22 exit 1
+  m19 handleMapStreamPhase: stream page answers with the stream top instead of the last offset  -> C22 exit 1
+  m6  handleMapStatePhase: server tags filter applied to the first state page only              -> C16M exit 1
+      (map-state-page-filtered:server, map-live-state-filtered:server)
+  m7  handleMapTransitionToLive: client tags filter skipped when buffered publications exist    -> C16M exit 1
+      (map-live-publications-filtered:client)
+  m16 handleMapLivePhase: server tags filter not inherited on a direct-LIVE recovery join       -> C16M exit 1
+      (map-live-publications-filtered:server, map-push-filtered:server)
+  m23 writePublication: offset-0 publications excluded by the filter are pushed (streamless)    -> C16M exit 1 (screened
+      with the replay only: map-push-filtered:client / :server)
+Not exit 1:
+  m3  live transition ignores the buffered publications -> exit 2 (DRIFT) for seed 1: the server-side position stays
+      behind the stream top, which the periodic position check ends with insufficient state (assumption above), so
+      the outcome is not a silent divergence; one behaviour of another seed ended silently diverged and was reported
+      (unexplained:per:fresh)
+  m9  offset filter of later state pages dropped -> exit 2 (DRIFT): frames differ, the client still converges
+  m20 live transition position taken from the publications seen instead of the stream top -> exit 2 (DRIFT, converges)
+  m21 stream phase goes live one entry too early -> exit 2 (DRIFT, converges)
+  m4  StopBuffering moved before the reply write (a push can overtake the reply) -> exit 0, MISSED by construction: the
+      tail of the live transition (lock buffer .. StopBuffering) contains no call through a public interface, the
+      harness cannot place a delivery inside it (needs the verif hook of DESIGN 4.0)
+Divergence handling: when the real code leaves the model (frames or gate differ) the harness stops following the model,
+lets the reference client finish the protocol on the REAL replies, delivers everything withheld and judges the real outcome
+(monitors + client map vs ReadState): VIOLATION if the real code broke the property, DRIFT otherwise.
 """
 from lib import vf
 
@@ -128,7 +164,3 @@ META = {
                       'evaluated on the real frames of every replayed behaviour.',
                  note=_note, technique='TLA+ spec + TLC exhaustive; gate replay; observable-only monitor'),
 }
-
-MUTATIONS = '''
-(filled in by the builder: see the list in the final section of this file's docstring history)
-'''
